@@ -118,6 +118,8 @@ def f(**kw):
     event.fire("out", arg=kw.get("arg"), extra=[1, 2])
     cnt.append(1)
     pyscript.o = str(len(cnt))
+    pyscript.odel = "x"
+    del pyscript.odel
     test.sink(v=kw.get("arg"))
     service.call("test", "sink", v2=kw.get("arg"))
     test.sink_only(v3=kw.get("arg"))
@@ -200,7 +202,7 @@ ALPHABET = {
     "mqtt": [("mqtt", "t/a", "on"), ("mqtt", "t/a", "off"), ("mqtt", "t/b", "on"), ("mqtt", "u/a", "on"),
              ("mqtt", "t/a", '{"k": 1}'), ("mqtt", "t/a/b", '{"k": 2}'), ("adv", 3), ("adv", 10)],
     "webhook": [("webhook", "hook1", {"arg": "1"}, "POST", "json"), ("webhook", "hook1", {"arg": "2"}, "POST", "form"),
-                ("webhook", "hook1", {"arg": "1"}, "GET", "form"), ("webhook", "hook1", {"arg": "1"}, "PUT", "json"),
+                ("webhook", "hook1", {"arg": "1"}, "GET", "form"), ("webhook", "hook1", {"arg": "1"}, "PUT", "json_charset"),
                 ("webhook", "hook2", {"arg": "1"}, "POST", "json"), ("webhook", "hook9", {"arg": "1"}, "POST", "json"),
                 ("adv", 3), ("adv", 10)],
 }
@@ -261,6 +263,8 @@ def run_case(cname, legacy, seq, sched):
         w.hass.bus.async_listen("out3", lambda ev: bus_out.append(("out3", dict(ev.data), ev.context)))
         w.hass.bus.async_listen("state_changed", lambda ev: bus_out.append(("state", ev.data["entity_id"], ev.context))
                                 if ev.data["entity_id"] == "pyscript.o" else None)
+        w.hass.bus.async_listen("state_changed", lambda ev: bus_out.append(("odel", ev.data.get("new_state") is None, ev.context))
+                                if ev.data["entity_id"] == "pyscript.odel" else None)
         w.hass.bus.async_fire(EVENT_HOMEASSISTANT_STARTED)
         w.settle()
         t0[0] = w.elapsed()
@@ -377,6 +381,13 @@ def check_emit(calls, bus_out, sink_calls, ctx_ids):
                 return {"kind": "context-parent", "what": "service call " + "/".join(data), "expected": s[10], "observed": ctx.parent_id}
             if data not in ({"v": s[5]}, {"v2": s[5]}, {"v3": s[5]}, {"v4": s[5]}):
                 return {"kind": "service-call-data", "expected": s[5], "observed": data}
+    odel = [b for b in bus_out if b[0] == "odel"]
+    if len(odel) != 2 * len(starts):
+        return {"kind": "emit-count", "expected": 2 * len(starts), "observed": ("odel", len(odel))}
+    for i, s in enumerate(starts):
+        for kind_, removed, ctx in odel[2 * i: 2 * i + 2]:
+            if ctx.parent_id != inv.get(s[10]):
+                return {"kind": "context-parent", "what": "state removal" if removed else "state set", "expected": s[10], "observed": ctx.parent_id}
     if len(by_parent) != len(starts):
         return {"kind": "context-not-distinct", "expected": len(starts), "observed": len(by_parent)}
     out3 = [b for b in bus_out if b[0] == "out3"]
